@@ -62,7 +62,7 @@ def clear_caches():
 # ------------------------------------------------------------------ generators
 VALS = [F(0), F(1), F(2), F(1, 2), F(1, 4), F(3), F(8), F(3, 2), F(1, 1024), F(4096)]
 SPLITS = [F(0), F(1), F(1, 2), F(1, 4), F(3, 4), F(1, 8)]
-KS = [F(0), F(1), F(2), F(1, 2), F(3), F(1, 4), F(-1)]
+KS = [F(0), F(0), F(1), F(2), F(1, 2), F(3), F(1, 4), F(-1)]
 
 def gen_stream(rng, neg=False, pkg=None):
     k = pkg if pkg is not None else rng.choice([0, 0, 1, 1, 2, 2, 3, 4])
@@ -92,7 +92,7 @@ def gen_stream(rng, neg=False, pkg=None):
     return sd
 
 def gen_op(rng, ns, streams, eb_ok):
-    kind = rng.choice(['mix'] * 10 + ['split'] * 3 + ['sep'] * 2 + ['copy_flow'] * 3 + ['scale', 'mul', 'mixsep'])
+    kind = rng.choice(['mix'] * 10 + ['split'] * 3 + ['sep'] * 2 + ['copy_flow'] * 3 + ['scale', 'scale', 'mul', 'mixsep'])
     big = [i for i in range(ns) if streams[i]['pkg'] in (0, 2, 4)] or list(range(ns))
     if kind in ('mix', 'mixsep'):
         r = rng.choice(big) if rng.random() < 0.9 else rng.randrange(ns)
@@ -354,10 +354,52 @@ def gen_alias_case(rng):
         case['mass_views'] = True
     return case
 
+def gen_split_case(rng):
+    """recycle-like histories: the same outlets are split into repeatedly, from multi-phase feeds whose phase sets
+    differ (the outlets' phases are reset by split_to; their per-phase sub-streams were used by the earlier split)"""
+    k = rng.choice([0, 1, 2, 4])
+    n = len(PKGS[k])
+    def row(): return [float(rng.choice(VALS)) if rng.random() < 0.6 else 0. for _ in range(n)]
+    def multi(pk, phases=None):
+        ph = phases or sorted(rng.sample(['g', 'l', 's'] if rng.random() < 0.7 else PHASES, rng.choice([1, 2, 2, 3])))
+        return {'pkg': pk, 'multi': True, 'phases': ph, 'flows': [row() if pk == k else [float(rng.choice(VALS)) for _ in PKGS[pk]] for _ in ph]}
+    feeds = [multi(k) for _ in range(rng.choice([2, 2, 3]))]
+    outs = []
+    for _ in range(rng.choice([2, 2, 3])):
+        pk = k if rng.random() < 0.75 else rng.choice([0, 2, 4])
+        if rng.random() < 0.65:
+            o = multi(pk)
+        else:
+            o = {'pkg': pk, 'multi': False, 'phases': [rng.choice(['l', 'g', 's'])], 'flows': [[float(rng.choice(VALS)) if rng.random() < 0.5 else 0. for _ in PKGS[pk]]]}
+        outs.append(o)
+    streams = feeds + outs
+    nf, no = len(feeds), len(outs)
+    ops = []
+    for _ in range(rng.choice([2, 3, 3, 4])):
+        u = rng.random()
+        if u < 0.7:
+            f = rng.randrange(nf)
+            s1, s2 = rng.sample(range(nf, nf + no), 2)
+            sp = float(rng.choice(SPLITS)) if rng.random() < 0.6 else [float(rng.choice(SPLITS)) for _ in range(n)]
+            ops.append(['split', f, s1, s2, sp, rng.random() < 0.75])
+        elif u < 0.85:
+            ops.append(['mix', rng.randrange(nf), [rng.randrange(nf + no) for _ in range(rng.choice([1, 2]))], rng.random() < 0.3, 0])
+        else:
+            ops.append(['scale', rng.randrange(nf + no), float(rng.choice(KS))])
+    return {'streams': streams, 'ops': ops}
+
 def gen_case(rng):
+    case = gen_case_family(rng)
+    if rng.random() < 0.5:
+        case['mass_views'] = True        # the mass-flow views are built (and cached) before the history starts
+    return case
+
+def gen_case_family(rng):
     u = rng.random()
     if u > 0.86:
         return gen_alias_case(rng)
+    if 0.27 <= u < 0.35:
+        return gen_split_case(rng)
     if u < 0.15:
         return gen_cache_case(rng)
     if u < 0.27:
@@ -522,7 +564,7 @@ def alias_mix_class(case, store, op):
 def run_impl(case):
     clear_caches()
     store = build_store(case)
-    out = {'init': [snap(s) for s in store], 'n_ok': 0, 'error': None}
+    out = {'init': [snap(s) for s in store], 'n_ok': 0, 'error': None, 'views_ok': True}
     out['ops'] = []
     for op in case['ops']:
         if not in_fragment(case, store, op):
@@ -539,6 +581,12 @@ def run_impl(case):
             out['error'] = type(ex).__name__
             out['final'] = before
             return out
+        # derived views held in caches (mass flows) must keep showing the stream's data: the model has no such
+        # cache (the mass flow is MW * molar flow of the same data), so a stale view is a disagreement
+        msg = mass_consistency(case, store, op[0])
+        if msg:
+            out['views_ok'] = False
+            out['views_msg'] = msg
     out['final'] = [snap(s) for s in store]
     return out
 
@@ -592,6 +640,9 @@ def castore(case, out):
     return f'(mka {cells} {hs})'
 
 def coq_case(case, out):
+    return f'({coq_case_model(case, out)} && {cbool(out.get("views_ok", True))})'
+
+def coq_case_model(case, out):
     if case.get('handles'):
         ops = clist([cop(o) for o in out['ops']])
         e = 'None' if out['error'] is None else f'(Some {ERR.get(out["error"], "EOther")})'
